@@ -821,4 +821,60 @@ theorem gtangent_affine (g : Grp) (X0 τ : DVec ℝ) (h : X0.length = g.gdim) : 
   rw [this]
   have := ((hasDerivAt_id (0:ℝ)).mul_const (nth (liftG g X0 τ) i)).const_add (nth X0 i)
   simpa using this
+/-! ## call sequences and aliased arguments -/
+/-- **two backward passes through one graph accumulate to the backward pass of the summed cotangent**: for the pairing
+with any leaf tangents, `backprop(c₁) ++ backprop(c₂)` (what `.grad` holds after `backward(c₁); backward(c₂)` with
+`retain_graph`) equals `backprop(c₁ + c₂)`.  The reverse sweep is a pure function of `(program, leaf values, cotangent)`:
+nothing is carried from one call to the next. -/
+theorem backprop_accumulates (dJ : DJ ℝ) (hdJ : DJShape dJ) (eps : ℝ) (lt : List Ty) (env tan : List (DVec ℝ))
+    (hE : EnvOK lt env tan) (p : Prog) (ty : Ty) (c1 c2 : DVec ℝ) (hty : tyOf lt p = some ty)
+    (h1 : c1.length = ty.dim) (h2 : c2.length = ty.dim) :
+    pairSum tan (backprop dJ eps env p c1 ++ backprop dJ eps env p c2)
+      = pairSum tan (backprop dJ eps env p (DVec.add c1 c2)) := by
+  rw [pairSum_append, (backprop_adjoint_aux dJ hdJ eps lt env tan hE p ty c1 hty h1).1,
+    (backprop_adjoint_aux dJ hdJ eps lt env tan hE p ty c2 hty h2).1,
+    (backprop_adjoint_aux dJ hdJ eps lt env tan hE p ty (DVec.add c1 c2) hty (by rw [length_dadd _ _ (by rw [h1, h2]), h1])).1,
+    ddot_add_left _ _ _ (by rw [h1, h2])]
+
+/-- rename the leaves of a program -/
+def Prog.mapLeaf (f : Nat → Nat) : Prog → Prog
+  | .leaf i => .leaf (f i)
+  | .un o g p => .un o g (p.mapLeaf f)
+  | .bin o g p q => .bin o g (p.mapLeaf f) (q.mapLeaf f)
+
+/-- all leaf indices of the program are below `n` -/
+def Prog.leavesBelow (n : Nat) : Prog → Prop
+  | .leaf i => i < n
+  | .un _ _ p => p.leavesBelow n
+  | .bin _ _ p q => p.leavesBelow n ∧ q.leavesBelow n
+
+/-- the environment seen through a renaming: slot `i` holds what slot `f i` holds -/
+def reindex (n : Nat) (f : Nat → Nat) (env : List (DVec ℝ)) : List (DVec ℝ) :=
+  (List.range n).map fun i => env.getD (f i) []
+
+theorem getD_reindex (n : Nat) (f : Nat → Nat) (env : List (DVec ℝ)) (i : Nat) (h : i < n) :
+    (reindex n f env).getD i [] = env.getD (f i) [] := by
+  simp [reindex, h]
+
+/-- **aliasing = sharing (forward)**: passing one tensor in several argument positions (renaming `f` identifies leaves)
+evaluates like distinct tensors holding the same data -/
+theorem eval_mapLeaf (eps : ℝ) (n : Nat) (f : Nat → Nat) (env : List (DVec ℝ)) (p : Prog) (h : p.leavesBelow n) :
+    eval eps env (p.mapLeaf f) = eval eps (reindex n f env) p := by
+  induction p with
+  | leaf i => simp only [Prog.mapLeaf, eval]; exact (getD_reindex n f env i h).symm
+  | un o g p ih => simp only [Prog.mapLeaf, eval, ih h]
+  | bin o g p q ihp ihq => simp only [Prog.mapLeaf, eval, ihp h.1, ihq h.2]
+
+/-- **aliasing = sharing (backward)**: the reverse sweep of the aliased program emits exactly the contributions of the
+un-aliased one, addressed to the identified leaves — so the gradient of a tensor used in several argument positions is
+the sum of the gradients of the positions -/
+theorem backprop_mapLeaf (dJ : DJ ℝ) (eps : ℝ) (n : Nat) (f : Nat → Nat) (env : List (DVec ℝ)) (p : Prog)
+    (h : p.leavesBelow n) (go : DVec ℝ) :
+    backprop dJ eps env (p.mapLeaf f) go = (backprop dJ eps (reindex n f env) p go).map (fun c => (f c.1, c.2)) := by
+  induction p generalizing go with
+  | leaf i => simp [Prog.mapLeaf, backprop]
+  | un o g p ih => simp only [Prog.mapLeaf, backprop, eval_mapLeaf eps n f env p h, ih h]
+  | bin o g p q ihp ihq =>
+    simp only [Prog.mapLeaf, backprop, eval_mapLeaf eps n f env p h.1, eval_mapLeaf eps n f env q h.2, ihp h.1, ihq h.2,
+      List.map_append]
 end PP.AD
